@@ -18,7 +18,7 @@ static void *worker(void *v)
     for (int r = 0; r < rounds; r++) {
         tctx_t t; body_setup(&t, tid % 3, shared); t.shared_grad = shared_grad; t.shared_clipped = shared_clipped; t.shared_acc = shared_acc; t.shared_tile = shared_tile; t.tile8 = tile8; t.tile16 = tile16; t.tile_ix = tid;
         pthread_barrier_wait(&bar);
-        for (int k = 0; k < N_BODY_OPS; k++) body_run(&t, (k + tid + r) % N_BODY_OPS);
+        for (int k = 0; k < N_ALL_OPS; k++) body_run(&t, (k + tid + r) % N_ALL_OPS);
         body_teardown(&t);
     }
     return NULL;
@@ -56,6 +56,6 @@ int main(int argc, char **argv)
     if (!pixman_image_unref(shared_acc)) refs_bad |= 8;
     if (!pixman_image_unref(shared_tile)) refs_bad |= 16;
     if (refs_bad) printf("SHARED-IMAGE-STILL-REFERENCED mask=%d (the harness held the only reference to each shared image)\n", refs_bad);
-    printf("TSAN-PASS-DONE threads=%d rounds=%d ops=%d\n", NTHREADS, rounds, NTHREADS * rounds * N_BODY_OPS);
+    printf("TSAN-PASS-DONE threads=%d rounds=%d ops=%d\n", NTHREADS, rounds, NTHREADS * rounds * N_ALL_OPS);
     return 0;
 }
